@@ -1026,3 +1026,239 @@ Proof.
     destruct (D n w I) as (r & R & F). rewrite R, F.
     rewrite (no_sideband_no_feedback _ n C). apply (SU n w I).
 Qed.
+
+(* ====================================================================== *)
+(* peer feedback of the in-process reference server                        *)
+(* ====================================================================== *)
+Lemma before_sep_cons2 a b t :
+  before_sep (a :: b :: t) =
+  if ((a =? 58)%N && (b =? 32)%N) then Some [] else option_map (cons a) (before_sep (b :: t)).
+Proof. reflexivity. Qed.
+
+Lemma before_sep_line n msg : has_sep n = false -> before_sep (fb_line n msg) = Some n.
+Proof.
+  unfold fb_line. induction n as [|a t IH]; intros H.
+  - reflexivity.
+  - destruct t as [|b t'].
+    + cbn. destruct (a =? 58)%N; reflexivity.
+    + cbn [has_sep] in H. apply orb_false_iff in H. destruct H as [H1 H2].
+      specialize (IH H2).
+      change ((a :: b :: t') ++ 58%N :: 32%N :: msg) with (a :: b :: (t' ++ 58%N :: 32%N :: msg)).
+      change ((b :: t') ++ 58%N :: 32%N :: msg) with (b :: (t' ++ 58%N :: 32%N :: msg)) in IH.
+      rewrite before_sep_cons2, H1, IH. reflexivity.
+Qed.
+
+Lemma feedback_line_recognised_proof names n msg :
+  has_sep n = false -> In n names -> read_line names (fb_line n msg) = Some n.
+Proof.
+  intros H I. unfold read_line. rewrite (before_sep_line n msg H).
+  apply mem_bytes_in in I. rewrite I. reflexivity.
+Qed.
+
+Lemma read_line_in names l n : read_line names l = Some n -> In n names.
+Proof.
+  unfold read_line. destruct (before_sep l) as [p|]; [|discriminate].
+  destruct (mem_bytes p names) eqn:M; [|discriminate].
+  intros E. inversion E; subst. apply mem_bytes_in. exact M.
+Qed.
+
+Definition pbatch_names (b : pbatch) : list name := map pc_name (pb_cases b).
+Definition pscen_names (ps : list pbatch) : list name := flat_map pbatch_names ps.
+
+Lemma heard_incl b n : In n (heard b) -> In n (pbatch_names b).
+Proof.
+  unfold heard. destruct (runner_feedback_source (pb_reference b)); [|intros []].
+  destruct (writer_eqb w server_feedback_writer); [|intros []].
+  intros I. apply in_flat_map in I. destruct I as (l & _ & I).
+  destruct (read_line (map pc_name (pb_cases b)) l) eqn:R; [|destruct I].
+  destruct I as [<-|[]]. apply read_line_in in R. exact R.
+Qed.
+
+Lemma heard_iff b n :
+  (forall m, In m (pbatch_names b) -> has_sep m = false) ->
+  (In n (heard b) <->
+   pb_reference b = true /\ exists c, In c (pb_cases b) /\ pc_name c = n /\ pc_msgs c <> []).
+Proof.
+  intros NS. unfold pbatch_names in NS. unfold heard, runner_feedback_source, server_feedback_writer.
+  destruct (pb_reference b); cbn [writer_eqb].
+  - rewrite in_flat_map. split.
+    + intros (l & Il & I). split; [reflexivity|].
+      unfold batch_lines in Il. apply in_flat_map in Il. destruct Il as (c & Ic & Il).
+      apply in_map_iff in Il. destruct Il as (msg & <- & Im).
+      assert (Inm : In (pc_name c) (map pc_name (pb_cases b))) by (apply in_map; exact Ic).
+      rewrite (feedback_line_recognised_proof _ _ msg (NS _ Inm) Inm) in I.
+      destruct I as [<-|[]]. exists c. repeat split; [exact Ic|].
+      intros E. rewrite E in Im. destruct Im.
+    + intros (_ & c & Ic & <- & NE). destruct (pc_msgs c) as [|msg rest] eqn:E; [congruence|].
+      exists (fb_line (pc_name c) msg). split.
+      * unfold batch_lines. apply in_flat_map. exists c. split; [exact Ic|].
+        rewrite E. left. reflexivity.
+      * assert (Inm : In (pc_name c) (map pc_name (pb_cases b))) by (apply in_map; exact Ic).
+        rewrite (feedback_line_recognised_proof _ _ msg (NS _ Inm) Inm). left. reflexivity.
+  - split; [intros []|intros [X _]; discriminate].
+Qed.
+
+Lemma peer_feedback_iff_proof ps n :
+  (forall m, In m (pscen_names ps) -> has_sep m = false) ->
+  (In n (peer_feedback ps) <->
+   exists b c, In b ps /\ pb_reference b = true /\ In c (pb_cases b) /\ pc_name c = n /\
+               pc_msgs c <> []).
+Proof.
+  intros NS. unfold peer_feedback. rewrite in_flat_map. split.
+  - intros (b & Ib & I). apply heard_iff in I.
+    + destruct I as (R & c & Ic & E & M). exists b, c. auto.
+    + intros m Im. apply NS. unfold pscen_names. apply in_flat_map. exists b. auto.
+  - intros (b & c & Ib & R & Ic & E & M). exists b. split; [exact Ib|].
+    apply heard_iff.
+    + intros m Im. apply NS. unfold pscen_names. apply in_flat_map. exists b. auto.
+    + split; [exact R|]. exists c. auto.
+Qed.
+
+Lemma peer_feedback_incl ps n : In n (peer_feedback ps) -> In n (pscen_names ps).
+Proof.
+  unfold peer_feedback, pscen_names. rewrite !in_flat_map. intros (b & Ib & I).
+  exists b. split; [exact Ib|apply heard_incl, I].
+Qed.
+
+Lemma strip_names ps e : scen_names (strip ps e) = pscen_names ps.
+Proof.
+  unfold scen_names, strip, pscen_names, pbatch_names, pc_name. cbn [s_batches].
+  induction ps as [|b ps IH]; [reflexivity|].
+  cbn [map flat_map b_cases]. rewrite IH, map_map. reflexivity.
+Qed.
+
+Lemma on_record_app_sideband A fb n : on_record (A ++ map OSideband fb) n = on_record A n.
+Proof.
+  unfold on_record. rewrite rev_app_distr, <- map_rev.
+  induction (rev fb) as [|m l IH]; [reflexivity|]. simpl. exact IH.
+Qed.
+
+Lemma has_feedback_app A B n : has_feedback (A ++ B) n = has_feedback A n || has_feedback B n.
+Proof. unfold has_feedback. apply existsb_app. Qed.
+
+Lemma has_feedback_sideband fb n : has_feedback (map OSideband fb) n = mem_bytes n fb.
+Proof.
+  unfold has_feedback, mem_bytes. induction fb as [|m l IH]; [reflexivity|].
+  simpl. rewrite IH. reflexivity.
+Qed.
+
+(* with a client that ends at end of input every case of every batch is answered *)
+Lemma went_cases_none cs got :
+  went_cases None cs got = (map (fun c => (rc_name c, WAnswered (rc_reply c))) cs, got + length cs).
+Proof.
+  revert got. induction cs as [|c cs IH]; intros got; cbn [went_cases ended map length].
+  - f_equal. lia.
+  - rewrite IH. f_equal. lia.
+Qed.
+
+Lemma went_list_strip ps e : forall got,
+  went_list None (s_batches (strip ps e)) got =
+  flat_map (fun b => map (fun c => (pc_name c, WAnswered (rc_reply (pc_rc c)))) (pb_cases b)) ps.
+Proof.
+  unfold strip. cbn [s_batches]. induction ps as [|b ps IH]; intros got; [reflexivity|].
+  cbn [map went_list b_server_ok b_cases flat_map]. rewrite went_cases_none, IH.
+  rewrite map_map. reflexivity.
+Qed.
+
+Lemma peer_went ps e n w :
+  In (n, w) (scen_went (strip ps e)) <->
+  exists b c, In b ps /\ In c (pb_cases b) /\ pc_name c = n /\ w = WAnswered (rc_reply (pc_rc c)).
+Proof.
+  unfold scen_went. change (s_exit_after (strip ps e)) with (@None nat).
+  rewrite went_list_strip, in_flat_map. split.
+  - intros (b & Ib & I). apply in_map_iff in I. destruct I as (c & E & Ic).
+    inversion E; subst. exists b, c. auto.
+  - intros (b & c & Ib & Ic & <- & ->). exists b. split; [exact Ib|].
+    apply in_map_iff. exists c. auto.
+Qed.
+
+Section PEER.
+Variables (kf kfl : name -> bool) (mark : name -> marking).
+Hypothesis M : forall n, marks_agree (kf n) (kfl n) (mark n).
+Variable ps : list pbatch.
+Variable e : bool.
+Hypothesis ND : NoDup (pscen_names ps).
+
+Let s := strip ps e.
+Let c := peer_cfg kf kfl ps.
+
+Lemma peer_realizes : realizes (scen_ops s) (scen_went s) (scen_names s).
+Proof.
+  assert (ND' : NoDup (scen_names s)) by (unfold s; rewrite strip_names; exact ND).
+  pose proof (run_batches_spec (s_exit_after s) (s_batches s) 0 ND') as RZ.
+  rewrite <- ended_0 in RZ. exact RZ.
+Qed.
+
+Lemma peer_selection : selection c (peer_ops ps e) (pscen_names ps).
+Proof.
+  destruct peer_realizes as (_ & B & _ & _).
+  split; [exact ND|]. split.
+  - unfold c, peer_cfg, scen_cfg. cbn [c_total]. rewrite strip_names. reflexivity.
+  - intros n I. unfold mentioned, peer_ops in I. rewrite flat_map_app, in_app_iff in I.
+    destruct I as [I|I].
+    + apply in_flat_map in I. destruct I as (o & Io & In').
+      fold s in Io. specialize (B o Io n In'). unfold s in B. rewrite strip_names in B. exact B.
+    + apply in_flat_map in I. destruct I as (o & Io & In').
+      apply in_map_iff in Io. destruct Io as (m & <- & Im). destruct In' as [<-|[]].
+      apply peer_feedback_incl, Im.
+Qed.
+
+Lemma peer_fate n w :
+  In (n, w) (scen_went s) ->
+  case_fate (peer_ops ps e) n = went_fate w /\
+  has_feedback (peer_ops ps e) n = mem_bytes n (peer_feedback ps).
+Proof.
+  intros I. destruct peer_realizes as (_ & _ & C & D).
+  destruct (D n w I) as (r & R & F). unfold case_fate, peer_ops. fold s. split.
+  - rewrite on_record_app_sideband, R. exact F.
+  - rewrite has_feedback_app, has_feedback_sideband, (no_sideband_no_feedback _ n C). reflexivity.
+Qed.
+
+Lemma peer_verdict_iff_proof :
+  peer_verdict kf kfl ps e = true <->
+  e = false /\
+  forall n w, In (n, w) (scen_went s) ->
+    met (mark n) (went_fate w) (mem_bytes n (peer_feedback ps)) = true.
+Proof.
+  unfold peer_verdict. fold c.
+  assert (Mc : marked_by c mark) by (intros n; apply M).
+  rewrite (run_verdict_iff_proof c mark _ _ e Mc peer_selection).
+  unfold success, case_met.
+  destruct peer_realizes as (A & _ & _ & _).
+  split.
+  - intros [SU E]. split; [exact E|]. intros n w I.
+    assert (In' : In n (pscen_names ps)).
+    { unfold s in A. rewrite strip_names in A. apply (in_l_names _ _ _ _ A I). }
+    specialize (SU n In'). destruct (peer_fate n w I) as (F1 & F2). rewrite F1, F2 in SU. exact SU.
+  - intros [E SU]. split; [|exact E]. intros n I.
+    unfold s in A. rewrite strip_names in A. rewrite <- A in I.
+    apply in_map_iff in I. destruct I as ([n' w] & E' & I). simpl in E'. subst n'.
+    destruct (peer_fate n w I) as (F1 & F2). rewrite F1, F2. apply (SU n w I).
+Qed.
+
+(* the reference server saw something wrong with the request of an unmarked case whose
+   reported result matches: the case is named FAILED and the run fails *)
+Lemma server_feedback_fails_run_proof b pc :
+  (forall m, In m (pscen_names ps) -> has_sep m = false) ->
+  In b ps -> pb_reference b = true -> In pc (pb_cases b) ->
+  rc_reply (pc_rc pc) = RPass -> pc_msgs pc <> [] ->
+  kf (pc_name pc) = false -> kfl (pc_name pc) = false ->
+  In (pc_name pc) (r_failed_names (report c (run c (peer_ops ps e)))) /\
+  peer_verdict kf kfl ps e = false.
+Proof.
+  intros NS Ib R Ic RP MS KF KFL.
+  assert (W : In (pc_name pc, WAnswered RPass) (scen_went s)).
+  { apply peer_went. exists b, pc. rewrite RP. auto. }
+  destruct (peer_fate _ _ W) as (F1 & F2).
+  assert (FB : mem_bytes (pc_name pc) (peer_feedback ps) = true).
+  { apply mem_bytes_in, peer_feedback_iff_proof; [exact NS|]. exists b, pc. auto. }
+  rewrite FB in F2.
+  assert (OR : on_record (peer_ops ps e) (pc_name pc) = Some Ok).
+  { unfold case_fate in F1. destruct (on_record (peer_ops ps e) (pc_name pc)) as [[|su k]|]; simpl in F1;
+      [reflexivity| |discriminate]. destruct su, k; discriminate. }
+  assert (In' : In (pc_name pc) (pscen_names ps)).
+  { unfold pscen_names. apply in_flat_map. exists b. split; [exact Ib|apply in_map, Ic]. }
+  destruct (feedback_fails_proof c _ _ _ peer_selection In' KF KFL OR F2) as (N & V).
+  split; [exact N|]. unfold peer_verdict, verdict. fold c. rewrite V. reflexivity.
+Qed.
+End PEER.
